@@ -213,7 +213,23 @@ func namedPkg(t types.Type) string {
 	return ""
 }
 
-func isTime(t types.Type) bool { return isNamed(t, "time", "Time") }
+// isTime: time.Time, or a defined type whose underlying type is time.Time's (e.g. strfmt.DateTime): both are encoded
+// as the instant, so that conversions between them are the identity.
+func isTime(t types.Type) bool {
+	if isNamed(t, "time", "Time") {
+		return true
+	}
+	n, ok := types.Unalias(t).(*types.Named)
+	if !ok {
+		return false
+	}
+	st, ok := n.Underlying().(*types.Struct)
+	if !ok || st.NumFields() != 3 {
+		return false
+	}
+	f := st.Field(0)
+	return f.Pkg() != nil && f.Pkg().Path() == "time" && f.Name() == "wall" && st.Field(1).Name() == "ext" && st.Field(2).Name() == "loc"
+}
 
 // opaqueStruct: struct types we never look inside.
 func opaqueStruct(t types.Type) bool {
